@@ -186,6 +186,9 @@ structure MonS (σ π : Type) where
   logs : σ → Nat → List (Option π) := fun _ _ => []      -- ground truth: appended payloads per (session, stream)
   posts : σ → Nat → Option Nat := fun _ _ => none       -- (session, stream) ↦ POST exchange that created it
 
+/-- the monitor before the first record -/
+def init {σ π : Type} (store jsonMode : Bool) : MonS σ π := { store := store, jsonMode := jsonMode }
+
 variable {σ π : Type} [DecidableEq σ] [DecidableEq π]
 
 def MonS.putEx (m : MonS σ π) (k : Nat) (e : MEx σ) : MonS σ π :=
